@@ -30,6 +30,16 @@ RulesPost == <<A("rules", "w"), R("rules"), A("rules", "r"), R("rules")>>
 (* context.rs gc_thread *)
 Gc == <<A("hist", "w"), A("alive", "w"), R("alive"), R("hist")>>
 
+(* TLS-wrapped http / socks listener (listeners/http.rs create_context): the TLS accept waits for the client before   *)
+(* the context exists, with no lock held                                                                          *)
+HttpTls(c, x, up) == <<P(c)>> \o Http(c, x, up)
+(* a variant that creates the context first and performs the TLS accept under its write lock (self-test: violates) *)
+HttpTlsLocked(c, x, up) == <<A("alive", "w"), R("alive"), A(x, "w"), P(c), R(x), P(c), A(x, "w"), R(x),
+                             A(x, "r"), A("rules", "r"), R("rules"), R(x), P(up)>>
+T_Tasks == {"h1", "f3", "live", "gc"}
+ProgTls == [t \in T_Tasks |-> CASE t = "h1" -> HttpTls("c1", "ctx1", "up1") [] t = "f3" -> HttpTls("c3", "ctx3", "up3")
+                                 [] t = "live" -> Live [] t = "gc" -> Gc]
+ProgTlsLocked == [ProgTls EXCEPT !["h1"] = HttpTlsLocked("c1", "ctx1", "up1")]
 MC_Tasks == {"h1", "s2", "f3", "live", "rpost", "gc"}
 Q_Tasks == {"h1", "f3", "live", "rpost", "gc"}
 MC_Locks == {"alive", "hist", "rules", "ctx1", "ctx2", "ctx3"}
